@@ -476,17 +476,22 @@ def _do_rewrite(
 
     # Lines that begin inside a string literal keep their indentation, it is part of the string.
     # That goes for triple quoted strings and for lines continued with a backslash inside a string.
+    # Lines that end inside a string literal keep their trailing blanks, for the same reason.
     string_token_types = {tokenize.STRING, getattr(tokenize, "FSTRING_MIDDLE", tokenize.STRING)}
+    ends_inside_string = set()
     try:
         for token in tokenize.generate_tokens(io.StringIO(new_code).readline):
             if token.type in string_token_types:
                 for lineno in range(token.start[0], token.end[0]):
                     indents[lineno] = 0
+                    ends_inside_string.add(lineno - 1)
     except (tokenize.TokenError, SyntaxError):
         pass  # new_code is not necessarily valid python syntax in all cases
 
     new_code = "".join(
-        f"{' ' * indents[i]}{code}".rstrip() + ("\n" if code.endswith("\n") else "")
+        f"{' ' * indents[i]}{code}"
+        if i in ends_inside_string
+        else f"{' ' * indents[i]}{code}".rstrip() + ("\n" if code.endswith("\n") else "")
         for i, code in enumerate(lines)
     )
 
